@@ -51,7 +51,7 @@ func verifBadSet(w *verifW, kind int, t verifTpl, blen int) {
 	if kind == 0 {
 		verifAssume(verifAll(id >= 4, id <= 255))
 	} else {
-		verifAssume(verifAll(id > 255, id != t.tid))
+		verifAssume(verifAll(id > 255, id != t.tid, id != t.decoy))
 	}
 	w.u16(id)
 	w.u16(uint16(4 + blen))
@@ -113,7 +113,7 @@ func VerifIPFIXInsertSet() {
 		badID := uint16(w2.b[verifBadOff(p, r1, r2)])<<8 | uint16(w2.b[verifBadOff(p, r1, r2)+1])
 		hb, ht := verifFNV4(a, badID), verifFNV4(a, t.tid)
 		if verifKnown("C04-hash-collision") {
-			verifAssume(hb != ht)
+			verifAssume(verifAll(hb != ht, hb != verifFNV4(a, t.decoy)))
 		}
 	}
 	got, _ := NewDecoder(a, w2.b).Decode(m)
@@ -161,10 +161,10 @@ func VerifIPFIXTruncate() {
 	verifAssume(!dup)
 	InfoModel[ElementKey{0, big.spec.ElementID}] = big.entry
 	bid := verifNondetU16()
-	verifAssume(verifAll(bid > 255, bid != t.tid))
+	verifAssume(verifAll(bid > 255, bid != t.tid, bid != t.decoy))
 	hb, ht := verifFNV4(a, bid), verifFNV4(a, t.tid)
 	if verifKnown("C04-hash-collision") {
-		verifAssume(hb != ht)
+		verifAssume(verifAll(hb != ht, hb != verifFNV4(a, t.decoy), ht != verifFNV4(a, t.decoy)))
 	}
 	wt := &verifW{b: make([]byte, 16+12)}
 	verifWriteHeader(wt, 28)
